@@ -19,15 +19,34 @@ def Ty.show : (t : Ty) → t.Val → String
   | .list _ t, vs => "[" ++ ";".intercalate (vs.map t.show) ++ "]"
   | .map _ k _ v _, es => "[" ++ ";".intercalate (es.map fun e => k.show e.1 ++ "," ++ v.show e.2) ++ "]"
 
-/-- key oracle from the op-line token `keys=<wire>[:<canon>],…` (`keys=` or `keys=-` is the empty table) -/
-def parseKeys (tok : String) : Bytes → Option Bytes :=
+/-- fast hex parser for long op-line tokens (same language as `Hex.ofHex`: lower/upper case digits, `-` = empty) -/
+def hexNib (c : UInt8) : UInt8 :=
+  if 48 ≤ c && c ≤ 57 then c - 48 else if 97 ≤ c && c ≤ 102 then c - 87 else if 65 ≤ c && c ≤ 70 then c - 55 else 255
+
+def ofHexGo (ba : ByteArray) : Nat → Bytes → Option Bytes
+  | 0, acc => some acc
+  | i + 1, acc =>
+    let hi := hexNib (ba.get! (2 * i))
+    let lo := hexNib (ba.get! (2 * i + 1))
+    if hi == 255 || lo == 255 then none else ofHexGo ba i ((hi <<< 4 ||| lo) :: acc)
+
+def ofHex (s : String) : Option Bytes :=
+  if s == "-" then some []
+  else
+    let ba := s.toUTF8
+    if ba.size % 2 != 0 then none else ofHexGo ba (ba.size / 2) []
+
+/-- key table from the op-line token `keys=<wire>[:<canon>],…` (`keys=-` is the empty table) -/
+def parseKeyTable (tok : String) : List (Bytes × Bytes) :=
   let body := if tok.startsWith "keys=" then (tok.drop 5).toString else tok
-  let entries := (body.splitOn ",").filterMap fun e =>
+  (body.splitOn ",").filterMap fun e =>
     match e.splitOn ":" with
-    | [w] => if w == "" || w == "-" then none else (Hex.ofHex w).map fun b => (b, b)
-    | [w, c] => do let b ← Hex.ofHex w; let c ← Hex.ofHex c; pure (b, c)
+    | [w] => if w == "" || w == "-" then none else (ofHex w).map fun b => (b, b)
+    | [w, c] => do let b ← ofHex w; let c ← ofHex c; pure (b, c)
     | _ => none
-  fun b => (entries.find? (fun e => e.1 == b)).map (·.2)
+
+/-- the key oracle `K` of a table -/
+def lookupKey (tbl : List (Bytes × Bytes)) (b : Bytes) : Option Bytes := (tbl.find? (fun e => e.1 == b)).map (·.2)
 
 /-- truncation points examined by the property ops (all of them for short strings) — same rule as the Go harness -/
 def cutPoints (n : Nat) : List Nat :=
